@@ -1023,13 +1023,23 @@ func (c *Ctx) checkPingerBody(r *Report, m *gwModel, kaCell string) {
 		key := fnKey(f) + ":pinger"
 		// time.After argument
 		okDur, okCtx := false, false
+		oneShotOutside := ""
 		allInstrs(f, func(i ssa.Instruction) {
-			if ci, ok := i.(ssa.CallInstruction); ok && calleeName(ci.Common()) == "time.After" {
-				if c.isSecondsOf(ci.Common().Args[0], func(v ssa.Value) bool {
+			if ci, ok := i.(ssa.CallInstruction); ok {
+				nm := calleeName(ci.Common())
+				oneShot := nm == "time.After" || nm == "time.NewTimer"
+				periodic := nm == "time.NewTicker" || nm == "time.Tick"
+				if (oneShot || periodic) && c.isSecondsOf(ci.Common().Args[0], func(v ssa.Value) bool {
 					os := c.origins(v)
 					return len(os) == 1 && (os[0].Kind == "param" || os[0].Kind == "freevar") && "f:"+typeStr(derefType(os[0].RootType()))+"."+os[0].PathStr() == kaCell
 				}) {
-					okDur = true
+					// a one-shot wait (time.After, NewTimer) has to be armed again in every iteration; armed once
+					// before the loop it fires once and the pinger falls silent for the rest of the sleep
+					if periodic || inCycle(i.Block()) {
+						okDur = true
+					} else {
+						oneShotOutside = c.instrPos(i)
+					}
 				}
 			}
 			if sel, ok := i.(*ssa.Select); ok && sel.Blocking {
@@ -1074,7 +1084,11 @@ func (c *Ctx) checkPingerBody(r *Report, m *gwModel, kaCell string) {
 		if okDur && okCtx {
 			r.ok("R3", key, c.instrPos(sendInstr), "loop: wait keep-alive seconds -> MQTT PINGREQ; exits on its context")
 		} else {
-			r.bad("R3", key, c.instrPos(sendInstr), fmt.Sprintf("sleep pinger: period is keep-alive seconds: %v; exits on context: %v", okDur, okCtx))
+			extra := ""
+			if oneShotOutside != "" {
+				extra = "; the keep-alive wait is a one-shot timer armed once outside the loop (" + oneShotOutside + "): it fires once, after that the pinger never pings again"
+			}
+			r.bad("R3", key, c.instrPos(sendInstr), fmt.Sprintf("sleep pinger: period is keep-alive seconds on every iteration: %v; exits on context: %v%s", okDur, okCtx, extra))
 		}
 	}
 	if n == 0 {
